@@ -107,32 +107,9 @@ def run_resource_reset_rule(idx: Index, res: Result, rule: str = "MUSTCALL") -> 
     res.floor("settings stores in _run_resource", nset, 5)
 
 
-def check_c08(idx: Index, tier: str, res: Result) -> None:
-    res.explanation = ("(1) invalidate-on-edit: every member of the SD-DSL element classes that recompiles an element's function "
-                       "(calls generate_function) calls model.reset_cache() on every path, and both cache resets clear *every* memo "
-                       "entry; the scenario reset also drops the live simulation; every settings channel that re-parameterises an "
-                       "already-run scenario resets first. (2) lockset: a table that is probed and later written by code reachable "
-                       "from a Thread target started in a loop over one shared object must be accessed under a lock.")
-    res.rules = ["MUSTCALL: product-graph dataflow 'reset_cache called' to every exit that recompiled",
-                 "CLEAR: shape of the two reset_cache bodies", "LOCKSET: check-then-act on shared tables under worker threads"]
-    res.not_decided = ["actual interleavings (that is model checking)", "equality of results with a freshly built model (numeric)",
-                       "user code that edits model.equations directly"]
-    # one value per (element, time): the memo is probed, evaluated and filled under one normalised key
-    from .timegrid import check_normalisation
-    deferred = None
-    try:
-        check_normalisation(idx, res)
-    except AnalysisError as e:          # the remaining rules of this property do not depend on it: run them, then fail closed
-        deferred = e
-    # ---- (1) invalidate on edit --------------------------------------------------------------------
-    res.floor("definition-changing members of sddsl", invalidate_on_edit(idx, res), 5)
-    # generate_function clears the element's own memo entry
-    gf = idx.func("BPTK_Py/sddsl/element.py", "Element.generate_function")
-    own = [n for n in walk_no_nested(gf.node) if isinstance(n, ast.Assign) and isinstance(n.targets[0], ast.Subscript)
-           and (dotted(n.targets[0].value) or "").endswith("model.memo") and isinstance(n.value, ast.Dict) and not n.value.keys]
-    res.check("CLEAR", "generate_function empties the element's own memo entry", len(own) == 1, gf.loc(), gf.qual,
-              norm_stmt(own[0]) if own else "", "recompiling an element does not clear its own memo", key="CLEAR/Element.generate_function")
-
+def clear_rules(idx: Index, res: Result) -> None:
+    """CLEAR: both reset_cache bodies empty the memo of every equation, unconditionally; the scenario's reset drops the live simulation;
+    bptk.reset_scenario_cache reaches it.  Shared by C08 and C07 (settings only take effect on values computed after them)."""
     # ---- both resets clear every entry ----------------------------------------------------------------
     for rel, qual, memo_attr in ((MODEL, "Model.reset_cache", "self.memo"), (SCEN, "SimulationScenario.reset_cache", "self.model.memo")):
         fi = idx.func(rel, qual)
@@ -180,6 +157,23 @@ def check_c08(idx: Index, tier: str, res: Result) -> None:
         res.check("CLEAR", "%s clears every memo entry" % qual, ok, fi.loc(), fi.qual, "for k in memo: memo[k] = {}",
                   "%s does not empty the memo of *every* equation (a loop over the whole table assigning {})" % qual,
                   key="CLEAR/%s/all-entries" % qual)
+        # ... on every call: no condition and no early return decides whether the memo is emptied.  ("nothing was evaluated yet" flags
+        # are set on some evaluation paths only; memoize() is reachable directly)
+        from ..util import nesting_atoms
+        clearing = [n for n in walk_no_nested(fi.node) if (isinstance(n, ast.For) and memo_attr in src(n.iter)) or
+                    (isinstance(n, ast.Assign) and dotted(n.targets[0]) == memo_attr) or
+                    (isinstance(n, ast.Expr) and isinstance(n.value, ast.Call) and call_name(n.value) in ("clear", "update") and memo_attr in src(n.value.func))]
+        for cst in clearing[:1]:
+            # `if self.model is not None` (there is a memo at all) is the only condition accepted
+            conds = [(a_, t_) for a_, t_ in nesting_atoms(fi.node, cst)
+                     if not (isinstance(a_, ast.Compare) and isinstance(a_.ops[0], (ast.Is, ast.IsNot)) and "model" in src(a_.left))
+                     and not (isinstance(a_, ast.Name) and a_.id == "model") and not (isinstance(a_, ast.Attribute) and a_.attr == "model")]
+            early = [r for r in walk_no_nested(fi.node) if isinstance(r, ast.Return) and seq(r) < seq(cst)]
+            res.check("CLEAR", "%s empties the memo unconditionally" % qual, not conds and not early, fi.loc(early[0] if early else cst), fi.qual,
+                      norm_stmt(early[0])[:60] if early else "; ".join(src(a_)[:40] for a_, _t in conds),
+                      "%s empties the memo only when %s: values memoised on a path that does not set that condition survive the reset"
+                      % (qual, ("it does not return early (`%s`)" % norm_stmt(early[0])[:50]) if early else " and ".join(src(a_)[:50] for a_, _t in conds)),
+                      key="CLEAR/%s/conditional" % qual)
     # Model.reset_cache: nothing that can evaluate equations runs after the memo was emptied (the agents' reset hooks may read SD
     # elements; setters call reset_cache *before* installing the new function, so a hook that runs after the clearing re-memoises values of
     # the old definition)
@@ -204,6 +198,58 @@ def check_c08(idx: Index, tier: str, res: Result) -> None:
     ok = bool(_own_stmt_calls(brc.node, "reset_cache"))
     res.check("CLEAR", "bptk.reset_scenario_cache delegates to the scenario's reset_cache", ok, brc.loc(), brc.qual, "reset_cache()",
               "bptk.reset_scenario_cache does not call reset_cache()", key="CLEAR/bptk.reset_scenario_cache")
+
+
+def through_memo_rule(idx: Index, res: Result, rule: str = "LOOKUP") -> int:
+    """Every evaluation of an equation goes through the memo: the raw function table (``<model>.equations[name](t)``) is called by
+    Model.memoize only.  An evaluation that bypasses it computes a value of its own - for a stochastic equation a different sample
+    than the one every dependant read from the memo - and leaves nothing for later readers."""
+    n = 0
+    for fi in idx.all_funcs("BPTK_Py/"):
+        if fi.file.startswith("BPTK_Py/sdcompiler/"):
+            continue
+        for c in iter_calls(fi.node):
+            f = c.func
+            if isinstance(f, ast.Subscript) and isinstance(f.value, ast.Attribute) and f.value.attr == "equations":
+                n += 1
+                ok = fi.qual == "Model.memoize" or fi.qual.startswith("Model.memoize.")
+                res.check(rule, "%s evaluates %s through the memo" % (fi.qual, src(f)[:40]), ok, fi.loc(c), fi.qual, src(c)[:90],
+                          "%s calls the raw equation function %s instead of Model.equation()/memoize(): the value is computed outside the memo, "
+                          "so it is not the value dependants saw and it is not remembered" % (fi.qual, src(c)[:60]), key="%s/%s/bypasses-memo" % (rule, fi.qual))
+    return n
+
+
+def check_c08(idx: Index, tier: str, res: Result) -> None:
+    res.explanation = ("(1) invalidate-on-edit: every member of the SD-DSL element classes that recompiles an element's function "
+                       "(calls generate_function) calls model.reset_cache() on every path, and both cache resets clear *every* memo "
+                       "entry; the scenario reset also drops the live simulation; every settings channel that re-parameterises an "
+                       "already-run scenario resets first. (2) lockset: a table that is probed and later written by code reachable "
+                       "from a Thread target started in a loop over one shared object must be accessed under a lock.")
+    res.rules = ["MUSTCALL: product-graph dataflow 'reset_cache called' to every exit that recompiled",
+                 "CLEAR: shape of the two reset_cache bodies", "LOCKSET: check-then-act on shared tables under worker threads"]
+    res.not_decided = ["actual interleavings (that is model checking)", "equality of results with a freshly built model (numeric)",
+                       "user code that edits model.equations directly"]
+    # one value per (element, time): the memo is probed, evaluated and filled under one normalised key
+    from .timegrid import check_normalisation
+    deferred = None
+    try:
+        check_normalisation(idx, res)
+    except AnalysisError as e:          # the remaining rules of this property do not depend on it: run them, then fail closed
+        deferred = e
+    # ---- (1) invalidate on edit --------------------------------------------------------------------
+    res.floor("definition-changing members of sddsl", invalidate_on_edit(idx, res), 5)
+    # generate_function clears the element's own memo entry
+    gf = idx.func("BPTK_Py/sddsl/element.py", "Element.generate_function")
+    own = [n for n in walk_no_nested(gf.node) if isinstance(n, ast.Assign) and isinstance(n.targets[0], ast.Subscript)
+           and (dotted(n.targets[0].value) or "").endswith("model.memo") and isinstance(n.value, ast.Dict) and not n.value.keys]
+    res.check("CLEAR", "generate_function empties the element's own memo entry", len(own) == 1, gf.loc(), gf.qual,
+              norm_stmt(own[0]) if own else "", "recompiling an element does not clear its own memo", key="CLEAR/Element.generate_function")
+
+    clear_rules(idx, res)
+    res.floor("raw equation-table calls examined", through_memo_rule(idx, res), 1)
+    # what a generated function string refers to is looked up when the function runs, never copied in when the string is built
+    from .sddsl_templates import _shape_stock
+    _shape_stock(idx, res)
     run_resource_reset_rule(idx, res)
     bs = idx.func(BPTK, "bptk.begin_session")
     conf = [c for c in iter_calls(bs.node) if call_name(c) == "configure_settings"]
